@@ -223,6 +223,9 @@ def _geo_chain(c, a, b, s, res, extra=()):
     """lemma chain for  res == a*exp(-s*ln(a/b)),  0<=s<=1, a,b>0  ==>  min(a,b) <= res <= max(a,b)"""
     L = c.ln(a / b)
     return list(extra) + [
+        c.Lt(0, a / b),
+        c.Eq(c.exp(L), a / b),
+        c.Eq(c.exp(-L) * c.exp(L), 1),
         c.And(c.Eq(c.exp(L), a / b), c.Eq(c.exp(-L), b / a)),
         c.Eq(res, a * c.exp(-s * L)),
         c.And(c.Implies(L >= 0, c.And(-L <= -s * L, -s * L <= 0)),
@@ -327,7 +330,7 @@ def expl_post(c, v0, v1, r):
         if c.mode == 'conc':
             return g
         defs, lem, _ = chain(i)
-        return c.hint(g, *lem, defs=defs)
+        return c.hint(g, *lem, defs=defs, final_uses=1)
 
     def between(i):
         mn = c.Min(c.Min(v0.x11[i], v0.x12[i]), c.Min(v0.x21[i], v0.x22[i]))
@@ -336,7 +339,8 @@ def expl_post(c, v0, v1, r):
         if c.mode == 'conc':
             return g
         defs, lem, (a, b) = chain(i)
-        return c.hint(g, *(lem + _geo_chain(c, a, b, s, r[i])), defs=defs)
+        return c.hint(g, *(lem + _geo_chain(c, a, b, s, r[i]) + [c.And(mn <= c.Min(a, b), c.Max(a, b) <= mx)]),
+                      defs=defs, final_uses=2)
 
     def node_lo(i):
         A, B, N1, N2 = parts(i)
@@ -353,9 +357,10 @@ def expl_post(c, v0, v1, r):
             return g
         defs, lem, (a, b) = chain(i)
         L = c.ln(a / b)
-        return c.hint(g, *(lem + [c.And(c.Eq(c.exp(L), a / b), c.Eq(c.exp(-L), b / a)),
+        return c.hint(g, *(lem + [c.Lt(0, a / b), c.Eq(c.exp(L), a / b), c.Eq(c.exp(-L) * c.exp(L), 1),
+                                  c.And(c.Eq(c.exp(L), a / b), c.Eq(c.exp(-L), b / a)),
                                   c.Implies(c.Eq(v0.T, v0.Tmax), s == 1),
-                                  c.Implies(c.Eq(v0.T, v0.Tmax), c.Eq(r[i], b))]), defs=defs)
+                                  c.Implies(c.Eq(v0.T, v0.Tmax), c.Eq(r[i], b))]), defs=defs, final_uses=1)
     return {'len': c.Len(r) == n, 'form': c.ForallH(0, n, form), 'between': c.ForallH(0, n, between),
             'node_T_lo': c.ForallH(0, n, node_lo), 'node_T_hi': c.ForallH(0, n, node_hi)}
 
@@ -371,7 +376,7 @@ def _expl_gen(rng):
 
 EXP2 = Unit('C04', 'taurex.util.math:interp_exp_and_lin', _bil_params, pre=expl_pre, post=expl_post,
             result=_vec_result('x11'), gen=_expl_gen, bounds=[dict(N=1)], safety=('index',),
-            native=_call_np('taurex.util.math', 'interp_exp_and_lin', _BIL_ORDER), short='interp_exp_and_lin',
+            native=_call_np('taurex.util.math', 'interp_exp_and_lin', _BIL_ORDER), short='interp_exp_and_lin', timeout_ms=20000,
             doc='exp-in-1/T, linear-in-logP kernel: A^(1-s) B^s with A,B the linear-in-logP values')
 
 
@@ -693,8 +698,9 @@ def bg_post(c, v0, v1, r):
         'between': c.Implies(c.Not(both_low), c.Forall(0, F, lambda i: c.And(c.Le(lo(i), r[i]), c.Le(r[i], hi(i))))),
         'nonneg': c.Implies(c.Forall(0, nP, lambda p: c.Forall2((0, nT), (0, W), lambda t, w: c.Le(0, s.xsecGrid[p, t, w]))),
                             c.Forall(0, F, lambda i: c.Le(0, r[i]))),
-        'node': c.Forall(0, nP, lambda p: c.Forall(0, nT, lambda t: c.Implies(
+        'node': c.scope(c.Forall(0, nP, lambda p: c.Forall(0, nT, lambda t: c.Implies(
             c.And(c.Eq(P, Pg[p]), c.Eq(T, Tg[t])), c.Forall(0, F, lambda i: c.Eq(r[i], x(p, t, i)))))),
+            'pre.*', 'call.*.node*', 'call.*.len', 'call.intepr_bilin.*', 'call.interp_lin_only.*'),
     }
     Tmin, Tmax = Tg[v0.t_idx_min], Tg[v0.t_idx_max]
     Pmin, Pmax = Pg[v0.p_idx_min], Pg[v0.p_idx_max]
